@@ -140,9 +140,13 @@ def gen_history(seed, label, *, encrypted=None, max_users=3, nops=(3, 10), destr
         dec = {name: base64.b64encode(rng.randbytes(rng.randrange(0, 40))).decode()
                for name in rng.sample(['README', 'other/prefix/x', 'database/file', 'snapshots.bak/aa/bb-cc', 'datafile',
                                        'config.old', 'keys/k1', 'zzz'], rng.randrange(1, 4))}
+    # some users are long-running programs that keep their Repository object (and adapter, loop,
+    # threads) from one command to the next; the others start a process per command, as the CLI does
+    lrng = substream(seed, label + '/live')
+    live = sorted(u for u in range(len(users)) if lrng.random() < 0.5) if lrng.random() < 0.4 else []
     return {
         'seed': seed, 'sched_seed': seed, 'settings': settings, 'users': users, 'contents': contents, 'ops': ops,
-        'decoys': dec,
+        'decoys': dec, 'live': live,
         'flavour': rng.choice(['sync', 'async']), 'lat_kind': rng.choice(['zero', 'uniform', 'heavy']),
         'lat': rng.choice([0.001, 0.02]), 'opts': world.SchedOpts.swarm(rng).as_dict(),
         'list_order': rng.choice(['sorted', 'shuffled']),
@@ -230,6 +234,7 @@ class History:
         self.keyfiles = []      # serialized key files emitted (for C05)
         self.stdouts = []       # (op, stdout) of init / add-key
         self.all_uploads = []   # (name, bytes) ever uploaded (C05 monitor)
+        self.live_users = set(case.get('live') or ())
 
     def flag(self, cls, msg, **sig):
         self.viol.append({'cls': cls, 'msg': f'[op {self.opi}] ' + msg, 'sig': sig})
@@ -302,6 +307,16 @@ class History:
                 if r.ok:
                     raise Violation('access-unlock', f'key of u{i} (pass-phrase of {len(pw)} bytes) also unlocks with a different pass-phrase of {len(v)} bytes',
                                     {'what': 'near-miss'})
+
+    def is_live(self, u):
+        """Does this command of user u run inside u's long-lived process?  (Now and then the same
+        user also works from elsewhere: a process of its own, as the CLI starts one.)"""
+        if u in self.live_users:
+            if substream(self.case['sched_seed'], f'live-op{self.opi}').random() < 0.7:
+                self.probe('live_process_command')
+                return True
+            self.probe('live_user_other_process')
+        return False
 
     def family(self, u):
         return self.refs[u].family_id()
@@ -391,7 +406,7 @@ class History:
         self.set_clock(op)
         prof = self.W.profile(crash_at=op.get('crash_at'), exists_lies_p=self.case.get('exists_lies_p', 0.0),
                               crash_commit_inflight=substream(self.case['sched_seed'], f'crash{self.opi}') if 'crash_at' in op else None)
-        r = self.W.snapshot(self.clients[u], [d], self.opts, note=op.get('note'), profile=prof)
+        r = self.W.snapshot(self.clients[u], [d], self.opts, note=op.get('note'), profile=prof, live=self.is_live(u))
         self.opres['r'] = r
         if r.crashed:
             self.orphans_possible = True
@@ -414,7 +429,8 @@ class History:
 
     def op_delete(self, op, before):
         u = op['u']
-        mine = self.live(u)
+        # "own" = everything under u's user key, whichever of its holders took the snapshot
+        mine = self.live(readable_by=u)
         if not mine:
             return
         victims = []
@@ -422,7 +438,7 @@ class History:
             s = mine[k % len(mine)]
             if s not in victims:
                 victims.append(s)
-        r = self.W.delete(self.clients[u], [s.name for s in victims], self.opts)
+        r = self.W.delete(self.clients[u], [s.name for s in victims], self.opts, live=self.is_live(u))
         self.opres['r'] = r
         if not r.ok:
             self.flag('command-failed', f'delete by u{u} of own snapshots failed: {r.outcome()} {r.exc or r.hang!r}', op='delete')
@@ -438,7 +454,7 @@ class History:
         if not others:
             return
         s = others[op['pick'] % len(others)]
-        r = self.W.delete(self.clients[u], [s.name], self.opts)
+        r = self.W.delete(self.clients[u], [s.name], self.opts, live=self.is_live(u))
         self.opres['r'] = r
         self.probe('foreign_delete_shared' if self.can_see(u, s) else 'foreign_delete_independent')
         if r.ok:
@@ -453,7 +469,7 @@ class History:
 
     def op_clean(self, op, before):
         u = op['u']
-        r = self.W.clean(self.clients[u], self.opts)
+        r = self.W.clean(self.clients[u], self.opts, live=self.is_live(u))
         self.opres['r'] = r
         if not r.ok:
             self.flag('command-failed', f'clean by u{u} failed: {r.outcome()} {r.exc or r.hang!r}', op='clean')
@@ -522,7 +538,7 @@ class History:
         target = self.W.dir / f'restore-{self.opi}'
         shutil.rmtree(target, ignore_errors=True)
         r = self.W.restore(self.clients[u], target, self.opts, snapshot_regex=op.get('snapshot_regex'),
-                           file_regex=op.get('file_regex'))
+                           file_regex=op.get('file_regex'), live=self.is_live(u))
         self.opres['r'] = r
         if not r.ok:
             self.flag('command-failed', f'restore by u{u} failed: {r.outcome()} {r.exc or r.hang!r}', op='restore')
@@ -535,7 +551,8 @@ class History:
         op = self.resolve(op)
         u = op['u']
         r = self.W.list_snapshots(self.clients[u], self.opts, snapshot_regex=op.get('snapshot_regex'),
-                                  header=op.get('header', True), columns=_cols(op.get('columns'), 'SnapshotListColumn'))
+                                  header=op.get('header', True), columns=_cols(op.get('columns'), 'SnapshotListColumn'),
+                                  live=self.is_live(u))
         self.opres['r'] = r
         if not r.ok:
             self.flag('command-failed', f'list-snapshots by u{u} failed: {r.outcome()} {r.exc or r.hang!r}', op='ls')
@@ -548,7 +565,7 @@ class History:
         u = op['u']
         r = self.W.list_files(self.clients[u], self.opts, snapshot_regex=op.get('snapshot_regex'),
                               file_regex=op.get('file_regex'), header=op.get('header', True),
-                              columns=_cols(op.get('columns'), 'FileListColumn'))
+                              columns=_cols(op.get('columns'), 'FileListColumn'), live=self.is_live(u))
         self.opres['r'] = r
         if not r.ok:
             self.flag('command-failed', f'list-files by u{u} failed: {r.outcome()} {r.exc or r.hang!r}', op='lf')
@@ -1158,6 +1175,7 @@ class Fork:
 
     def __init__(self, H):
         self.H = H
+        H.W.end_all_live()          # a live process cannot be copied: long-running programs restart here
         self.state0 = H.W.state.copy()
         self.env0 = copy.deepcopy(H.W.env)
         self.snaps0 = [copy.copy(s) for s in H.snaps]
@@ -1166,6 +1184,7 @@ class Fork:
 
     def restore(self):
         H = self.H
+        H.W.end_all_live()
         H.W.state = self.state0.copy()
         H.W.env = copy.deepcopy(self.env0)
         H.W.nproc = self.nproc0
